@@ -27,8 +27,8 @@ CHECKS["C05"] = dict(
 
 CHECKS["C02"] = dict(
     technique="BitField.tla operators as oracle: laws model-checked by TLC on the complete sub-field/word/value domain; every shipped item driven through both real write paths and each record judged by TLC (C02_Judge)",
-    text="Read/Write/Outside of bit fields inside 1/2-byte big-endian words are specified in BitField.tla; TLC checks read-back, isolation and neighbour laws for every (bit position, mask) shape x word content x value (quick: 1024 word contents incl. all 1-byte ones; thorough: all 65536). The harness extracts every item of all 151 config/log modules through real accessor objects and runs the sync and async write paths; TLC judges each record: refusal for read-only items, emitted (pos,len,word) = Write(existing, shape, value), mask derivation from MaxItems, applied block, read-back, other bits/bytes/items unchanged.",
-    note="Trusted: TLC, extraction of shapes through accessor attributes, application of a device write as a big-endian word at (pos,len). Temperature items are judged in C14. Known findings: three ill-formed table entries (D12).",
+    text="Read/Write/Outside of bit fields inside 1/2-byte big-endian words are specified in BitField.tla; TLC checks read-back, isolation and neighbour laws for every (bit position, mask) shape x word content x value (quick: 1024 word contents incl. all 1-byte ones; thorough: all 65536). The harness extracts every item of all 151 config/log modules through real accessor objects and runs the sync and async write paths; TLC judges each record: refusal for read-only items, emitted (pos,len,word) = Write(existing, shape, value), mask derivation from MaxItems, applied block, read-back, other bits/bytes/items unchanged. Temperature items go through the temperature accessor's write paths (every raw in the setpoint range x unit x path) and are judged by C14_Judge.",
+    note="Trusted: TLC, extraction of shapes through accessor attributes, application of a device write as a big-endian word at (pos,len). Known findings: three ill-formed table entries (D12).",
     design="§4 C02")
 CHECKS["C14"] = dict(
     technique="temperature arithmetic of BitField.tla on exact rationals: laws model-checked on all 65536 raws x 2 units; records of the real temperature accessor / water heater (all raws, both write paths, decimals, units, operation ladder) judged by TLC (C14_Judge)",
@@ -112,8 +112,8 @@ CHECKS["C09"] = dict(
     design="§4 C09")
 
 CHECKS["C10"] = dict(
-    technique="Lifecycle.tla resource variables (endpoints, task families) with Reset/Exit at every frame boundary model-checked by TLC + crash-point enumeration of resets and context exits on the real manager with exact resource accounting on the virtual loop, records judged by TLC (C10_Judge)",
-    text="TLC checks NoTaskLeakAfterReset, NoTaskAfterExit and BracketsClosedAtExit on the Lifecycle model. On the real stack every transport handed out (and its close()) and every task (through the task factory) is tracked; resets are injected on a grid of virtual times over discovery, each handshake step, steady state and error states, context exits likewise; after each reset the endpoints and tasks of the abandoned connection are examined, late datagrams (STATP, RFERR, APING, WCERR, STATV) are delivered to every abandoned protocol object and 200 virtual seconds pass with all accessor / spa / device observers instrumented; reconnect cycles measure boundedness; a sweep of the task-tidy period moves the tidy pass relative to task creation. TLC judges every record.",
+    technique="Lifecycle.tla resource variables (endpoints, task families) with Reset/Exit at every frame boundary and TaskBook.tla (bookkeeping list) model-checked by TLC + crash-point enumeration of resets and context exits on the real manager with exact resource accounting on the virtual loop, records judged by TLC (C10_Judge)",
+    text="TLC checks NoTaskLeakAfterReset, NoTaskAfterExit and BracketsClosedAtExit on the Lifecycle model. On the real stack every transport handed out (and its close()) and every task (through the task factory) is tracked; resets are injected on a grid of virtual times over discovery, each handshake step, steady state and error states, context exits likewise; after each reset the endpoints and tasks of the abandoned connection are examined, late datagrams (STATP, RFERR, APING, WCERR, STATV) are delivered to every abandoned protocol object and 200 virtual seconds pass with all accessor / spa / device observers instrumented; reconnect cycles measure boundedness; a sweep of the task-tidy period moves the tidy pass relative to task creation. TaskBook.tla models the bookkeeping list (atomic tidy pass: NoOrphan holds; read-suspend-write-back control is refuted) and is bound by a probe that adds a task at every loop iteration of the real manager across several tidy passes: no live task may be missing from the list and cancelling the family ends them all. TLC judges every record.",
     note="Trusted: TLC, virtual loop accounting. 'Promptly' = 0.3 s after a reset returned (discovery resources: the discovery timeout), 1 s after exit. Known finding D7b (exit without reset leaves the connection endpoint open); D7, D15, D19 were found and fixed.",
     design="§4 C10")
 
